@@ -1,24 +1,20 @@
 (* C11 -- ACLHelper.permits / principals_allowed_by_permission
-   (src/pyramid/authorization.py).  Executable definitions only. *)
+   (src/pyramid/authorization.py).  Executable definitions only.
+
+   The data types and primitives live in Model/C11_base.v.  The CONTROL FLOW of
+   the two methods is regenerated from the source on every run by
+   harness/c11/translate.py into Gen/Facts_C11.v ([gen_permits],
+   [gen_principals_allowed]); the definitions below are the hand-written
+   reference model the property theorems were first proved about, and
+   Proofs/C11_gen.v proves the regenerated program equal to them. *)
 From Coq Require Import List NArith ZArith Bool.
 Import ListNotations.
-Require Import Verif.Lib.Wire Verif.Gen.Facts_C11.
-
-Inductive action := Allow | Deny | Other.          (* Other: any value that is neither constant *)
-Inductive perms := PAll | PNames (l : list text).  (* ALL_PERMISSIONS | iterable; a bare str is PNames [s] *)
-Record ace := mkAce { act : action; who : text; what : perms }.
-Definition acl := list ace.
-(* lineage, context first; None = the location has no __acl__ attribute.  A
-   callable __acl__ is represented by the list it returns. *)
-Definition lineage := list (option acl).
-
-Definition perm_in (p : text) (ps : perms) : bool :=
-  match ps with PAll => true | PNames l => mem_text p l end.
+Require Import Verif.Lib.Wire.
+Require Export Verif.Model.C11_base.
+Require Import Verif.Gen.Facts_C11.
 
 Definition ace_matches (principals : list text) (p : text) (e : ace) : bool :=
   mem_text (who e) principals && perm_in p (what e).
-
-Inductive decision := Allowed (d i : nat) | Denied (d i : nat) | DefaultDeny.
 
 (* for ace in acl: ... return on the first matching ACE *)
 Fixpoint scan_acl (principals : list text) (p : text) (a : acl) (i : nat) : option (bool * nat) :=
@@ -46,12 +42,6 @@ Fixpoint permits_from (d : nat) (L : lineage) (principals : list text) (p : text
 Definition permits := permits_from 0.
 
 Definition granted (d : decision) : bool := match d with Allowed _ _ => true | _ => false end.
-
-(* sets of principals as duplicate-free lists *)
-Definition add (x : text) (l : list text) : list text := if mem_text x l then l else x :: l.
-Fixpoint remove (x : text) (l : list text) : list text :=
-  match l with [] => [] | y :: r => if text_eqb x y then remove x r else y :: remove x r end.
-Definition union (a b : list text) : list text := fold_right add a b.
 
 (* inner loop of principals_allowed_by_permission over one ACL; returns
    (allowed, allowed_here) at loop exit (normal or through [break]) *)
@@ -126,15 +116,18 @@ Definition put_decision (d : decision) : val :=
   end.
 
 (* case = [lineage; principals; permission]
-   answer = [model permits; model principals_allowed; spec granted] *)
+   answer = [regenerated permits; regenerated principals_allowed; spec granted; wf;
+             hand-written permits; hand-written principals_allowed] *)
 Definition run_C11 (v : val) : val :=
   ret_or_bad (
     match v with
     | VL [l; ps; p] =>
         olet L := get_lineage l in olet ps := get_texts ps in olet p := get_text p in
-        Some (VL [put_decision (permits L ps p);
-                  vtexts (principals_allowed L p);
+        Some (VL [put_decision (gen_permits L ps p);
+                  vtexts (gen_principals_allowed L p);
                   vbool (spec_granted L ps p);
-                  vbool (wf_lineage L)])
+                  vbool (wf_lineage L);
+                  put_decision (permits L ps p);
+                  vtexts (principals_allowed L p)])
     | _ => None
     end).
